@@ -106,6 +106,9 @@ theorem stepResize_link {s s' : State} {i n old : Nat} {isClose : Bool} {pc : ZP
     (hs : stepResize s i n isClose pc old = some s') : Link s' := by
   cases pc
   all_goals simp only [stepResize, finishResize] at hs
+  · -- enter
+    simp only [Option.some.injEq] at hs; subst hs
+    link_leaf l h
   · -- lock
     split at hs
     · simp at hs
